@@ -44,6 +44,7 @@ static const char *PW = "correct horse battery staple", *PW2 = "correct horse ba
 static char ref_str_id[crypto_pwhash_STRBYTES], ref_str_i[crypto_pwhash_STRBYTES], ref_str_s[crypto_pwhash_scryptsalsa208sha256_STRBYTES];
 static unsigned char ref_raw_id[32], ref_raw_i[32], ref_raw_s[32], SALT[32];
 static void *kept;
+static char long_str[400];
 
 typedef struct { const char *name; const char *model; int expect_ok; } api_t;
 static const api_t apis[] = {
@@ -52,6 +53,8 @@ static const api_t apis[] = {
     { "pwhash_argon2i_str_verify_wrong", "pwhash", 0 }, { "pwhash_str_needs_rehash", "pwhash", 1 }, { "pwhash_argon2i_str_needs_rehash", "pwhash", 1 },
     { "scrypt_raw", "pwhash", 1 }, { "scrypt_str", "pwhash", 1 }, { "scrypt_str_verify_ok", "pwhash", 1 }, { "scrypt_str_verify_wrong", "pwhash", 0 },
     { "scrypt_ll", "pwhash", 1 }, { "sodium_malloc", "sodium_malloc", 1 }, { "sodium_allocarray", "sodium_malloc", 1 }, { "sodium_malloc_0", "sodium_malloc", 1 },
+    /* a hash string as other Argon2 implementations produce them: 96-byte tag, 178 characters (crypto_pwhash_str never makes one) */
+    { "pwhash_str_verify_long_ok", "pwhash", 1 }, { "pwhash_str_verify_long_wrong", "pwhash", 0 },
 };
 #define NAPI ((int) (sizeof apis / sizeof apis[0]))
 
@@ -83,6 +86,8 @@ static int do_call(int a, int big) {
     case 14: r = crypto_pwhash_scryptsalsa208sha256_ll((const uint8_t *) PW, strlen(PW), SALT, 16, 16, 1, 1, out, 32); in_call = 0; res = (r == 0) | ((r == 0) << 1); break;
     case 15: kept = sodium_malloc(100); in_call = 0; res = (kept != NULL) | ((kept != NULL) << 1); break;
     case 16: kept = sodium_allocarray(10, 10); in_call = 0; res = (kept != NULL) | ((kept != NULL) << 1); break;
+    case 18: r = crypto_pwhash_str_verify(long_str, PW, strlen(PW)); in_call = 0; res = (r == 0) | ((r == 0) << 1); break;
+    case 19: r = crypto_pwhash_str_verify(long_str, PW2, strlen(PW2)); in_call = 0; res = (r == 0) | ((r == 0) << 1); break;
     case 17: kept = sodium_malloc(0); in_call = 0; res = (kept != NULL) | ((kept != NULL) << 1); break;
     default: in_call = 0; break;
     }
@@ -138,6 +143,11 @@ int main(int argc, char **argv) {
     v_install_seeded_random(4242); if (crypto_pwhash_argon2i_str(ref_str_i, PW, strlen(PW), 3, mem)) return 3;
     if (crypto_pwhash_scryptsalsa208sha256(ref_raw_s, 32, PW, strlen(PW), SALT, crypto_pwhash_scryptsalsa208sha256_OPSLIMIT_MIN, crypto_pwhash_scryptsalsa208sha256_MEMLIMIT_MIN)) return 3;
     v_install_seeded_random(4242); if (crypto_pwhash_scryptsalsa208sha256_str(ref_str_s, PW, strlen(PW), crypto_pwhash_scryptsalsa208sha256_OPSLIMIT_MIN, crypto_pwhash_scryptsalsa208sha256_MEMLIMIT_MIN)) return 3;
+    { unsigned char raw[96]; char s64[64], h64[200];
+      if (crypto_pwhash(raw, sizeof raw, PW, strlen(PW), SALT, ops, mem, crypto_pwhash_ALG_ARGON2ID13)) return 3;
+      sodium_bin2base64(s64, sizeof s64, SALT, 16, sodium_base64_VARIANT_ORIGINAL_NO_PADDING); sodium_bin2base64(h64, sizeof h64, raw, sizeof raw, sodium_base64_VARIANT_ORIGINAL_NO_PADDING);
+      snprintf(long_str, sizeof long_str, "$argon2id$v=19$m=%u,t=%u,p=1$%s$%s", (unsigned) (mem / 1024), (unsigned) ops, s64, h64);
+      if (crypto_pwhash_str_verify(long_str, PW, strlen(PW)) != 0) return 3; }
     for (int a = 0; a < NAPI; a++) {
         int n = run_child(a, 0, 0, big, out);
         for (int i = 1; i <= n; i++) { run_child(a, i, 0, big, out); run_child(a, i, 1, big, out); }
